@@ -35,6 +35,8 @@ CLAIMED["C05"]=("value formula amount*price/10^(asset+price decimals) and its op
   "dataflow-shape and comparison-class rules + structured-dominance facts over type-checked AST; cache-context typestate; role-typed argument matching over entry-reachable calls", "4/C05")
 CLAIMED["C20"]=("guard dominance at every write of the AVS registry, task counter, task, result, challenge and BLS-key families: registry uniqueness guards per arm, opt-in guards incl. self value >= AVS minimum, +1 task counter drawn only at task creation, common/phase-one/phase-two result guards with the window comparison classes and argument identity between guards and written key, challenge guards and uniqueness key, epoch-end selection predicate / grouping / signer lists / one write per group, who-may-write and who-may-call of the setters, key-constructor role order",
   "structured-dominance facts with call-outcome and comparison normal forms over type-checked AST; store effect summaries and call graph for the writer/caller sets", "4/C20")
+CLAIMED["C13"]=("fee-less classification (every message a create-price message); every fee-less ante branch ends in next or error and carries its duty (gas limit 0, top priority, size limit, signer = key address, signature per signer, nonce check per message with the creator's consensus address); ante chain order; nonce check classes and single guarded write; nonce lifecycle (zero only when absent, removed when sealed and at finalisation, added for new rounds; writer set); counted-only-if guards dominate aggregation incl. every required source; timestamp window from the unrounded block time + 5 s for every price",
+  "structured-dominance facts with call-outcome and comparison normal forms over type-checked AST; store effect summaries for the nonce writer set; decorator-order table read from the chain constructor", "4/C13")
 NA={}
 def main():
     checks=[]
